@@ -64,12 +64,6 @@ theorem takeN_ne_none {n : Nat} {l : Bytes} (h : n ≤ l.length) : takeN n l ≠
 
 /-! ### info / hop fields -/
 
-def Info.WF (i : Info) : Prop := i.segID < 65536 ∧ i.ts < 2^32
-def Hop.WF (h : Hop) : Prop :=
-  h.expTime < 256 ∧ h.consIn < 65536 ∧ h.consEg < 65536 ∧ h.mac.length = 6
-
-instance (i : Info) : Decidable i.WF := by unfold Info.WF; exact inferInstance
-instance (h : Hop) : Decidable h.WF := by unfold Hop.WF; exact inferInstance
 
 theorem length_encInfo (i : Info) : (encInfo i).length = 8 := by
   simp [encInfo, length_natBE]
@@ -135,5 +129,666 @@ theorem encHop_decHop (f e i0 i1 e0 e1 m0 m1 m2 m3 m4 m5 : UInt8) (h : Hop)
     by_cases h1 : f.toNat % 2 = 1 <;> by_cases h2 : f.toNat / 2 % 2 = 1 <;>
       simp [b2n, h1, h2] <;> omega
   · exact ⟨e.toNat_lt, beNat2_lt _ _, beNat2_lt _ _, rfl⟩
+
+/-! ### scion.Raw -/
+
+
+theorem meta_decode_encode (m : PathMeta.Hdr) (h : m.InRange) :
+    PathMeta.decode (PathMeta.encode m) = m ∧ PathMeta.encode m < 2^32 := by
+  obtain ⟨h1, h2, h3, h4, h5⟩ := h
+  cases m
+  simp only [PathMeta.encode, PathMeta.decode, PathMeta.Hdr.mk.injEq] at *
+  refine ⟨⟨?_, ?_, ?_, ?_, ?_⟩, ?_⟩ <;> omega
+
+theorem decRaw_natBE (w : Nat) (tail : Bytes) :
+    decRaw (natBE 4 w ++ tail) = decRawBody (w % 2^32) tail := by
+  have e := beNat_natBE4 w
+  simp only [natBE] at e
+  simp only [natBE, List.cons_append, List.nil_append, decRaw]
+  rw [e]
+
+theorem decRawBody_eq (w : Nat) (m : PathMeta.Hdr) (body rest : Bytes) (b : PathMeta.Base)
+    (hd : PathMeta.decode w = m) (hb : PathMeta.baseDecode m = some b)
+    (hl : body.length = bodyLen b) :
+    decRawBody w (body ++ rest) = .ok (m, body, 4 + bodyLen b) := by
+  unfold decRawBody
+  rw [hd, hb]
+  simp only
+  have : ¬ (body ++ rest).length < bodyLen b := by simp; omega
+  rw [if_neg this, takeN_append' _ _ _ hl]
+
+theorem decRaw_encRaw (m : PathMeta.Hdr) (body rest : Bytes) (b : PathMeta.Base)
+    (hm : m.InRange) (hb : PathMeta.baseDecode m = some b) (hl : body.length = bodyLen b) :
+    decRaw (encRaw m body ++ rest) = .ok (m, body, 4 + bodyLen b) := by
+  obtain ⟨hd, hlt⟩ := meta_decode_encode m hm
+  unfold encRaw
+  rw [List.append_assoc, decRaw_natBE, Nat.mod_eq_of_lt hlt]
+  exact decRawBody_eq _ m body rest b hd hb hl
+
+theorem decode_inRange (w : Nat) : (PathMeta.decode w).InRange := by
+  simp only [PathMeta.decode, PathMeta.Hdr.InRange]
+  omega
+
+/-- what a successful `decRawBody` establishes -/
+theorem decRawBody_ok {w : Nat} {rest : Bytes} {m : PathMeta.Hdr} {body : Bytes} {n : Nat}
+    (h : decRawBody w rest = .ok (m, body, n)) :
+    m = PathMeta.decode w ∧ RawWF m body ∧ (∃ slack, rest = body ++ slack) ∧
+      n = 4 + body.length := by
+  unfold decRawBody at h
+  split at h
+  · cases h
+  · rename_i base hb
+    split at h
+    · cases h
+    · split at h
+      · cases h
+      · rename_i bd sl ht
+        cases h
+        obtain ⟨e1, e2⟩ := takeN_eq_some ht
+        refine ⟨rfl, ⟨decode_inRange w, ?_⟩, ⟨sl, e1⟩, by omega⟩
+        rw [hb]; exact e2
+
+theorem decRawBody_ne_panic (w : Nat) (rest : Bytes) : decRawBody w rest ≠ .error .panic := by
+  unfold decRawBody
+  split
+  · simp
+  · split
+    · simp
+    · rename_i hlen
+      split
+      · rename_i ht
+        exact absurd ht (takeN_ne_none (by omega))
+      · simp
+
+theorem decRaw_ne_panic (data : Bytes) : decRaw data ≠ .error .panic := by
+  unfold decRaw
+  split
+  · exact decRawBody_ne_panic _ _
+  · simp
+
+/-! ### one-hop and EPIC paths -/
+
+theorem decOneHop_enc (i : Info) (h1 h2 : Hop) (rest : Bytes) (hi : i.WF) (w1 : h1.WF) (w2 : h2.WF) :
+    decOneHop (encInfo i ++ encHop h1 ++ encHop h2 ++ rest) = .ok (.onehop i h1 h2) := by
+  unfold decOneHop
+  have hl : ¬ (encInfo i ++ encHop h1 ++ encHop h2 ++ rest).length < 32 := by
+    simp [length_encInfo, length_encHop]; omega
+  rw [if_neg hl]
+  rw [show encInfo i ++ encHop h1 ++ encHop h2 ++ rest = encInfo i ++ (encHop h1 ++ (encHop h2 ++ rest)) by simp]
+  rw [takeN_append' 8 _ _ (length_encInfo i)]
+  simp only
+  rw [takeN_append' 12 _ _ (length_encHop h1)]
+  simp only
+  rw [takeN_append' 12 _ _ (length_encHop h2)]
+  simp only
+  rw [decInfo_encInfo i hi, decHop_encHop h1 w1, decHop_encHop h2 w2]
+
+theorem length8 {l : Bytes} (h : l.length = 8) : ∃ a b c d e f g k, l = [a,b,c,d,e,f,g,k] := by
+  match l, h with
+  | [a,b,c,d,e,f,g,k], _ => exact ⟨a,b,c,d,e,f,g,k,rfl⟩
+
+theorem length12 {l : Bytes} (h : l.length = 12) :
+    ∃ a b c d e f g k x y z w, l = [a,b,c,d,e,f,g,k,x,y,z,w] := by
+  match l, h with
+  | [a,b,c,d,e,f,g,k,x,y,z,w], _ => exact ⟨a,b,c,d,e,f,g,k,x,y,z,w,rfl⟩
+
+theorem length4 {l : Bytes} (h : l.length = 4) : ∃ a b c d, l = [a,b,c,d] := by
+  match l, h with
+  | [a,b,c,d], _ => exact ⟨a,b,c,d,rfl⟩
+
+theorem decInfo_isSome {l : Bytes} (h : l.length = 8) : ∃ i, decInfo l = some i := by
+  obtain ⟨a,b,c,d,e,f,g,k,rfl⟩ := length8 h
+  exact ⟨_, rfl⟩
+
+theorem decHop_isSome {l : Bytes} (h : l.length = 12) : ∃ i, decHop l = some i := by
+  obtain ⟨a,b,c,d,e,f,g,k,x,y,z,w,rfl⟩ := length12 h
+  exact ⟨_, rfl⟩
+
+theorem decOneHop_ne_panic (data : Bytes) : decOneHop data ≠ .error .panic := by
+  unfold decOneHop
+  split
+  · simp
+  · rename_i hlen
+    split
+    · rename_i ht; exact absurd ht (takeN_ne_none (by omega))
+    · rename_i ib r1 ht1
+      obtain ⟨e1, l1⟩ := takeN_eq_some ht1
+      have hr1 : r1.length = data.length - 8 := by rw [e1]; simp; omega
+      split
+      · rename_i ht; exact absurd ht (takeN_ne_none (by omega))
+      · rename_i h1b r2 ht2
+        obtain ⟨e2, l2⟩ := takeN_eq_some ht2
+        have hr2 : r2.length = r1.length - 12 := by rw [e2]; simp; omega
+        split
+        · rename_i ht; exact absurd ht (takeN_ne_none (by omega))
+        · rename_i h2b r3 ht3
+          obtain ⟨e3, l3⟩ := takeN_eq_some ht3
+          obtain ⟨i, hi⟩ := decInfo_isSome l1
+          obtain ⟨x1, hx1⟩ := decHop_isSome l2
+          obtain ⟨x2, hx2⟩ := decHop_isSome l3
+          rw [hi, hx1, hx2]
+          simp
+
+/-- what a successful one-hop decode establishes: the input starts with 32 bytes whose
+re-encoding differs in reserved bits only -/
+theorem decOneHop_ok {data : Bytes} {p : PathV} (h : decOneHop data = .ok p) :
+    ∃ i h1 h2 ib h1b h2b slack, p = .onehop i h1 h2 ∧ data = ib ++ h1b ++ h2b ++ slack ∧
+      ib.length = 8 ∧ h1b.length = 12 ∧ h2b.length = 12 ∧
+      decInfo ib = some i ∧ decHop h1b = some h1 ∧ decHop h2b = some h2 := by
+  unfold decOneHop at h
+  split at h
+  · cases h
+  · split at h
+    · cases h
+    · rename_i ib r1 ht1
+      split at h
+      · cases h
+      · rename_i h1b r2 ht2
+        split at h
+        · cases h
+        · rename_i h2b r3 ht3
+          obtain ⟨e1, l1⟩ := takeN_eq_some ht1
+          obtain ⟨e2, l2⟩ := takeN_eq_some ht2
+          obtain ⟨e3, l3⟩ := takeN_eq_some ht3
+          split at h
+          · rename_i i x1 x2 hi hx1 hx2
+            cases h
+            refine ⟨i, x1, x2, ib, h1b, h2b, r3, rfl, ?_, l1, l2, l3, hi, hx1, hx2⟩
+            rw [e1, e2, e3]; simp
+          · cases h
+
+/-! ### paths -/
+
+
+theorem rawWF_elim {m : PathMeta.Hdr} {body : Bytes} (h : RawWF m body) :
+    m.InRange ∧ ∃ b, PathMeta.baseDecode m = some b ∧ body.length = bodyLen b := by
+  obtain ⟨h1, h2⟩ := h
+  refine ⟨h1, ?_⟩
+  split at h2
+  · rename_i b hb; exact ⟨b, hb, h2⟩
+  · exact absurd h2 (by simp)
+
+theorem length_encRaw (m : PathMeta.Hdr) (body : Bytes) : (encRaw m body).length = 4 + body.length := by
+  simp [encRaw, length_natBE]
+
+theorem decEpic_of (ts ctr : Nat) (p l tail : Bytes) (m : PathMeta.Hdr) (body : Bytes) (n : Nat)
+    (h1 : ts < 2^32) (h2 : ctr < 2^32) (h3 : p.length = 4) (h4 : l.length = 4)
+    (hr : decRaw tail = .ok (m, body, n)) :
+    decEpic (natBE 4 ts ++ natBE 4 ctr ++ p ++ l ++ tail) =
+      .ok (.epic ts ctr p l m body, 16 + n) := by
+  obtain ⟨p0, p1, p2, p3, rfl⟩ := length4 h3
+  obtain ⟨l0, l1, l2, l3, rfl⟩ := length4 h4
+  have e1 := beNat_natBE4 ts
+  have e2 := beNat_natBE4 ctr
+  simp only [natBE] at e1 e2
+  unfold decEpic
+  simp only [natBE, List.cons_append, List.nil_append]
+  rw [e1, e2, Nat.mod_eq_of_lt h1, Nat.mod_eq_of_lt h2, hr]
+
+theorem decEpic_enc (ts ctr : Nat) (p l : Bytes) (m : PathMeta.Hdr) (body rest : Bytes)
+    (b : PathMeta.Base) (h1 : ts < 2^32) (h2 : ctr < 2^32) (h3 : p.length = 4) (h4 : l.length = 4)
+    (hm : m.InRange) (hb : PathMeta.baseDecode m = some b) (hl : body.length = bodyLen b) :
+    decEpic (natBE 4 ts ++ natBE 4 ctr ++ p ++ l ++ (encRaw m body ++ rest)) =
+      .ok (.epic ts ctr p l m body, 16 + (4 + bodyLen b)) :=
+  decEpic_of ts ctr p l _ m body _ h1 h2 h3 h4 (decRaw_encRaw m body rest b hm hb hl)
+
+theorem decEpic_ne_panic (data : Bytes) : decEpic data ≠ .error .panic := by
+  unfold decEpic
+  split
+  · rename_i rest
+    have := decRaw_ne_panic rest
+    split
+    · rename_i e he; intro hc; cases hc; exact this he
+    · simp
+  · simp
+
+theorem decPath_ne_panic (pt : Nat) (pb : Bytes) : decPath pt pb ≠ .error .panic := by
+  unfold decPath
+  split
+  · split <;> simp
+  · split
+    · have := decRaw_ne_panic pb
+      split
+      · rename_i e he; intro hc; cases hc; exact this he
+      · simp
+    · split
+      · have := decOneHop_ne_panic pb
+        split
+        · rename_i e he; intro hc; cases hc; exact this he
+        · simp
+      · split
+        · exact decEpic_ne_panic pb
+        · simp
+
+theorem decPath_raw (pb : Bytes) (m : PathMeta.Hdr) (body : Bytes) (n : Nat)
+    (h : decRaw pb = .ok (m, body, n)) : decPath 1 pb = .ok (.scion m body, n) := by
+  simp [decPath, h]
+
+theorem decPath_onehop (pb : Bytes) (p : PathV)
+    (h : decOneHop pb = .ok p) : decPath 2 pb = .ok (p, 32) := by
+  simp [decPath, h]
+
+theorem decPath_epic (pb : Bytes) : decPath 3 pb = decEpic pb := by
+  simp [decPath]
+
+/-- serialising a well-formed path and decoding exactly those bytes gives the path back -/
+theorem decPath_encPath (p : PathV) (hw : PathWF p) :
+    ∃ pb, encPath p = some pb ∧ pb.length = pathLen p ∧ decPath p.type pb = .ok (p, pathLen p) := by
+  cases p with
+  | empty => exact ⟨[], rfl, rfl, rfl⟩
+  | scion m body =>
+    obtain ⟨hm, b, hb, hl⟩ := rawWF_elim hw
+    refine ⟨encRaw m body, rfl, ?_, ?_⟩
+    · simp [pathLen, hb, length_encRaw, hl]
+    · have := decRaw_encRaw m body [] b hm hb hl
+      rw [List.append_nil] at this
+      have e : pathLen (.scion m body) = 4 + bodyLen b := by simp [pathLen, hb]
+      rw [e]
+      exact decPath_raw _ _ _ _ this
+  | onehop i h1 h2 =>
+    obtain ⟨hi, w1, w2⟩ := hw
+    refine ⟨encInfo i ++ encHop h1 ++ encHop h2, rfl, ?_, ?_⟩
+    · simp [pathLen, length_encInfo, length_encHop]
+    · have := decOneHop_enc i h1 h2 [] hi w1 w2
+      rw [List.append_nil] at this
+      exact decPath_onehop _ _ this
+  | epic ts ctr p l m body =>
+    obtain ⟨h1, h2, h3, h4, hr⟩ := hw
+    obtain ⟨hm, b, hb, hl⟩ := rawWF_elim hr
+    refine ⟨natBE 4 ts ++ natBE 4 ctr ++ p ++ l ++ encRaw m body, ?_, ?_, ?_⟩
+    · simp [encPath, h3, h4]
+    · simp [pathLen, hb, length_encRaw, length_natBE, h3, h4, hl]; omega
+    · have := decEpic_enc ts ctr p l m body [] b h1 h2 h3 h4 hm hb hl
+      rw [List.append_nil] at this
+      have e : pathLen (.epic ts ctr p l m body) = 16 + (4 + bodyLen b) := by
+        simp [pathLen, hb]; omega
+      rw [e]
+      show decPath 3 _ = _
+      rw [decPath_epic]
+      exact this
+
+/-! ### common and address header -/
+
+
+theorem length_encCmn (c : Cmn) : (encCmn c).length = 12 := by
+  simp [encCmn, length_natBE]
+
+theorem decCmn_encCmn (c : Cmn) (rest : Bytes) (h : c.WF) : decCmn (encCmn c ++ rest) = some (c, rest) := by
+  obtain ⟨h1, h2, h3, h4, h5, h6, h7, h8, h9⟩ := h
+  obtain ⟨v, tc, fl, nh, hl, pl, pt, dt, st⟩ := c
+  simp only at h1 h2 h3 h4 h5 h6 h7 h8 h9
+  have e1 := beNat_natBE4 (v % 16 * 2^28 + tc % 256 * 2^20 + fl % 2^20)
+  have e2 := beNat_natBE2 pl
+  simp only [natBE] at e1 e2
+  simp only [encCmn, natBE, List.cons_append, List.nil_append, decCmn]
+  rw [e1, e2]
+  simp only [Option.some.injEq, Prod.mk.injEq, and_true, Cmn.mk.injEq, UInt8.toNat_ofNat']
+  refine ⟨?_, ?_, ?_, ?_, ?_, ?_, ?_, ?_, ?_⟩ <;> omega
+
+/-- re-encoding a decoded common header zeroes the two reserved bytes only -/
+theorem encCmn_decCmn {data : Bytes} {c : Cmn} {rest : Bytes} (h : decCmn data = some (c, rest)) :
+    ∃ b0 b1 b2 b3 b4 b5 b6 b7 b8 b9 r0 r1,
+      data = b0 :: b1 :: b2 :: b3 :: b4 :: b5 :: b6 :: b7 :: b8 :: b9 :: r0 :: r1 :: rest ∧
+      encCmn c = [b0, b1, b2, b3, b4, b5, b6, b7, b8, b9, 0, 0] ∧ c.WF := by
+  match data, h with
+  | b0 :: b1 :: b2 :: b3 :: nh :: hl :: p0 :: p1 :: pt :: atl :: r0 :: r1 :: rest', h =>
+    simp only [decCmn, Option.some.injEq, Prod.mk.injEq] at h
+    obtain ⟨hc, hr⟩ := h
+    subst hr
+    refine ⟨b0, b1, b2, b3, nh, hl, p0, p1, pt, atl, r0, r1, rfl, ?_, ?_⟩
+    · subst hc
+      have hw := beNat4_lt b0 b1 b2 b3
+      have e : (beNat [b0, b1, b2, b3] / 2^28 % 16 * 2^28 + beNat [b0, b1, b2, b3] / 2^20 % 256 % 256 * 2^20
+          + beNat [b0, b1, b2, b3] % 2^20 % 2^20) = beNat [b0, b1, b2, b3] := by omega
+      simp only [encCmn, e, natBE_beNat4, natBE_beNat2, UInt8.ofNat_toNat, List.cons_append,
+        List.nil_append, List.cons.injEq, and_true, true_and]
+      apply UInt8.toNat_inj.mp
+      have := atl.toNat_lt
+      simp
+      omega
+    · subst hc
+      have hw := beNat4_lt b0 b1 b2 b3
+      have := beNat2_lt p0 p1
+      have := nh.toNat_lt; have := hl.toNat_lt; have := pt.toNat_lt; have := atl.toNat_lt
+      simp only [Cmn.WF]
+      refine ⟨?_, ?_, ?_, ?_, ?_, ?_, ?_, ?_, ?_⟩ <;> omega
+
+theorem decCmn_none_iff (data : Bytes) : decCmn data = none ↔ data.length < 12 := by
+  match data with
+  | [] | [_] | [_,_] | [_,_,_] | [_,_,_,_] | [_,_,_,_,_] | [_,_,_,_,_,_] | [_,_,_,_,_,_,_]
+  | [_,_,_,_,_,_,_,_] | [_,_,_,_,_,_,_,_,_] | [_,_,_,_,_,_,_,_,_,_] | [_,_,_,_,_,_,_,_,_,_,_] =>
+    simp [decCmn]
+  | _ :: _ :: _ :: _ :: _ :: _ :: _ :: _ :: _ :: _ :: _ :: _ :: rest => simp [decCmn]
+
+
+theorem length_encAddr (c : Cmn) (a : Addr) : (encAddr c a).length = addrHdrLen c := by
+  simp [encAddr, length_natBE, length_fit, addrHdrLen]; omega
+
+theorem decAddr_encAddr (c : Cmn) (a : Addr) (rest : Bytes) (h : a.WF c) :
+    decAddr c (encAddr c a ++ rest) = .ok (a, rest) := by
+  obtain ⟨h1, h2, h3, h4⟩ := h
+  unfold decAddr
+  have hl : ¬ (encAddr c a ++ rest).length < addrHdrLen c := by
+    simp [length_encAddr]
+  rw [if_neg hl]
+  unfold encAddr
+  rw [fit_eq _ _ h3, fit_eq _ _ h4]
+  rw [show natBE 8 a.dstIA ++ natBE 8 a.srcIA ++ a.rawDst ++ a.rawSrc ++ rest =
+    natBE 8 a.dstIA ++ (natBE 8 a.srcIA ++ (a.rawDst ++ (a.rawSrc ++ rest))) by simp]
+  rw [takeN_append' 8 _ _ (length_natBE 8 _)]
+  simp only
+  rw [takeN_append' 8 _ _ (length_natBE 8 _)]
+  simp only
+  rw [takeN_append' _ _ _ h3]
+  simp only
+  rw [takeN_append' _ _ _ h4]
+  simp only
+  rw [beNat_natBE8, beNat_natBE8, Nat.mod_eq_of_lt h1, Nat.mod_eq_of_lt h2]
+
+theorem decAddr_ne_panic (c : Cmn) (rest : Bytes) : decAddr c rest ≠ .error .panic := by
+  unfold decAddr
+  split
+  · simp
+  · rename_i hlen
+    unfold addrHdrLen at hlen
+    split
+    · rename_i ht; exact absurd ht (takeN_ne_none (by omega))
+    · rename_i dia r1 ht1
+      obtain ⟨e1, l1⟩ := takeN_eq_some ht1
+      have hr1 : r1.length = rest.length - 8 := by rw [e1]; simp; omega
+      split
+      · rename_i ht; exact absurd ht (takeN_ne_none (by omega))
+      · rename_i sia r2 ht2
+        obtain ⟨e2, l2⟩ := takeN_eq_some ht2
+        have hr2 : r2.length = r1.length - 8 := by rw [e2]; simp; omega
+        split
+        · rename_i ht; exact absurd ht (takeN_ne_none (by omega))
+        · rename_i dst r3 ht3
+          obtain ⟨e3, l3⟩ := takeN_eq_some ht3
+          have hr3 : r3.length = r2.length - addrLen c.dstType := by rw [e3]; simp; omega
+          split
+          · rename_i ht; exact absurd ht (takeN_ne_none (by omega))
+          · simp
+
+/-- what a successful address decode establishes -/
+theorem decAddr_ok {c : Cmn} {rest : Bytes} {a : Addr} {r4 : Bytes} (h : decAddr c rest = .ok (a, r4)) :
+    rest = encAddr c a ++ r4 ∧ a.WF c := by
+  unfold decAddr at h
+  split at h
+  · cases h
+  · split at h
+    · cases h
+    · rename_i dia r1 ht1
+      split at h
+      · cases h
+      · rename_i sia r2 ht2
+        split at h
+        · cases h
+        · rename_i dst r3 ht3
+          split at h
+          · cases h
+          · rename_i src r4' ht4
+            obtain ⟨e1, l1⟩ := takeN_eq_some ht1
+            obtain ⟨e2, l2⟩ := takeN_eq_some ht2
+            obtain ⟨e3, l3⟩ := takeN_eq_some ht3
+            obtain ⟨e4, l4⟩ := takeN_eq_some ht4
+            cases h
+            obtain ⟨a0,a1,a2,a3,a4,a5,a6,a7,rfl⟩ := length8 l1
+            obtain ⟨c0,c1,c2,c3,c4,c5,c6,c7,rfl⟩ := length8 l2
+            constructor
+            · simp only [encAddr, natBE_beNat8]
+              rw [fit_eq _ _ l3, fit_eq _ _ l4, e1, e2, e3, e4]
+              simp
+            · refine ⟨?_, ?_, l3, l4⟩
+              · show beNat [a0,a1,a2,a3,a4,a5,a6,a7] < 2^64
+                have := beNat_natBE8 (beNat [a0,a1,a2,a3,a4,a5,a6,a7])
+                rw [natBE_beNat8] at this
+                have h2 : beNat [a0,a1,a2,a3,a4,a5,a6,a7] % 2^64 < 2^64 := Nat.mod_lt _ (by decide)
+                omega
+              · show beNat [c0,c1,c2,c3,c4,c5,c6,c7] < 2^64
+                have := beNat_natBE8 (beNat [c0,c1,c2,c3,c4,c5,c6,c7])
+                rw [natBE_beNat8] at this
+                have h2 : beNat [c0,c1,c2,c3,c4,c5,c6,c7] % 2^64 < 2^64 := Nat.mod_lt _ (by decide)
+                omega
+
+/-! ### the path part of the SCION decoder -/
+
+theorem pathType_le (p : PathV) : p.type ≤ 3 := by cases p <;> simp [PathV.type]
+
+theorem decPathPart_enc (c : Cmn) (p : PathV) (pb payload : Bytes) (dataLen : Nat)
+    (hpt : c.pathType = p.type) (hlen : c.hdrLen * 4 = 12 + addrHdrLen c + pathLen p)
+    (hpb : pb.length = pathLen p) (hd : decPath p.type pb = .ok (p, pathLen p))
+    (hdl : dataLen = 12 + addrHdrLen c + pb.length + payload.length) :
+    decPathPart c dataLen (pb ++ payload) = .ok (p, payload) := by
+  unfold decPathPart
+  have := pathType_le p
+  have e : c.hdrLen * 4 - 12 - addrHdrLen c = pb.length := by omega
+  rw [if_neg (by omega), if_neg (by omega), if_neg (by omega), e, takeN_append]
+  simp only
+  rw [hpt, hd]
+  simp only
+  rw [if_neg (by omega)]
+
+theorem decPathPart_ne_panic (c : Cmn) (dataLen : Nat) (r4 : Bytes)
+    (h : r4.length + 12 + addrHdrLen c = dataLen) : decPathPart c dataLen r4 ≠ .error .panic := by
+  unfold decPathPart
+  split
+  · simp
+  · split
+    · simp
+    · split
+      · simp
+      · split
+        · rename_i ht; exact absurd ht (takeN_ne_none (by omega))
+        · rename_i pb payload ht
+          have := decPath_ne_panic c.pathType pb
+          split
+          · rename_i e he; intro hc; cases hc; exact this he
+          · split <;> simp
+
+theorem decPathPart_ok {c : Cmn} {dataLen : Nat} {r4 : Bytes} {p : PathV} {payload : Bytes}
+    (h : decPathPart c dataLen r4 = .ok (p, payload)) :
+    ∃ pb, r4 = pb ++ payload ∧ 12 + addrHdrLen c + pb.length = c.hdrLen * 4 ∧
+      decPath c.pathType pb = .ok (p, pb.length) := by
+  unfold decPathPart at h
+  split at h
+  · cases h
+  · split at h
+    · cases h
+    · split at h
+      · cases h
+      · split at h
+        · cases h
+        · rename_i pb pl ht
+          obtain ⟨e1, l1⟩ := takeN_eq_some ht
+          split at h
+          · cases h
+          · rename_i p' n hd
+            split at h
+            · cases h
+            · rename_i hn
+              cases h
+              refine ⟨pb, e1, by omega, ?_⟩
+              rw [hd, l1]
+              congr 2
+              omega
+
+/-! ### reserved bits -/
+
+theorem keepLow_zero (b : UInt8) : keepLow 0 b = 0 := by
+  apply UInt8.toNat_inj.mp; simp [keepLow]; omega
+
+theorem keepLow_two (b : UInt8) : keepLow 2 b = UInt8.ofNat (b.toNat % 4) := by
+  simp [keepLow]
+
+theorem clr_append_right (x y : Bytes) (p k : Nat) : clr (x.length + p) k (x ++ y) = x ++ clr p k y := by
+  induction x with
+  | nil => simp
+  | cons a r ih =>
+    simp only [List.length_cons, List.cons_append]
+    rw [show r.length + 1 + p = (r.length + p) + 1 by omega]
+    simp [clr, ih]
+
+theorem clr_append_left (x y : Bytes) (p k : Nat) (h : p < x.length) :
+    clr p k (x ++ y) = clr p k x ++ y := by
+  induction x generalizing p with
+  | nil => simp at h
+  | cons a r ih =>
+    cases p with
+    | zero => simp [clr]
+    | succ q =>
+      simp only [List.length_cons] at h
+      simp [clr, ih q (by omega)]
+
+theorem length_clr (p k : Nat) (l : Bytes) : (clr p k l).length = l.length := by
+  induction l generalizing p with
+  | nil => simp [clr]
+  | cons a r ih => cases p <;> simp [clr, ih]
+
+theorem length_clearBits (l : Bytes) (ms : List (Nat × Nat)) : (clearBits l ms).length = l.length := by
+  induction ms generalizing l with
+  | nil => rfl
+  | cons m ms ih => obtain ⟨p, k⟩ := m; simp only [clearBits]; rw [ih, length_clr]
+
+theorem clearBits_append_right (x y : Bytes) (ms : List (Nat × Nat)) :
+    clearBits (x ++ y) (ms.map fun (p, k) => (x.length + p, k)) = x ++ clearBits y ms := by
+  induction ms generalizing y with
+  | nil => simp [clearBits]
+  | cons m ms ih =>
+    obtain ⟨p, k⟩ := m
+    simp only [List.map_cons, clearBits, clr_append_right, ih]
+
+theorem clearBits_append_left (x y : Bytes) (ms : List (Nat × Nat))
+    (h : ∀ m ∈ ms, m.1 < x.length) : clearBits (x ++ y) ms = clearBits x ms ++ y := by
+  induction ms generalizing x with
+  | nil => simp [clearBits]
+  | cons m ms ih =>
+    obtain ⟨p, k⟩ := m
+    have hp : p < x.length := h (p, k) (by simp)
+    simp only [clearBits, clr_append_left x y p k hp]
+    apply ih
+    intro m hm
+    rw [length_clr]
+    exact h m (by simp [hm])
+
+theorem natBE4_encode_decode (a b c d : UInt8) :
+    natBE 4 (PathMeta.encode (PathMeta.decode (beNat [a, b, c, d]))) = [a, keepLow 2 b, c, d] := by
+  have := a.toNat_lt; have := b.toNat_lt; have := c.toNat_lt; have := d.toNat_lt
+  simp only [PathMeta.encode, PathMeta.decode, beNat, natBE, keepLow, List.foldl]
+  simp only [List.cons.injEq, and_true]
+  bytes_eq
+
+/-- a raw SCION path decoded from exactly `rest`: re-encoding clears the six reserved bits of the
+meta line only -/
+theorem decRaw_ok_exact {rest : Bytes} {m : PathMeta.Hdr} {body : Bytes}
+    (h : decRaw rest = .ok (m, body, rest.length)) :
+    RawWF m body ∧ 4 + body.length = rest.length ∧ encRaw m body = clr 1 2 rest := by
+  unfold decRaw at h
+  split at h
+  · rename_i a b c d tl
+    obtain ⟨hm, hw, ⟨slack, hs⟩, hn⟩ := decRawBody_ok h
+    simp only [List.length_cons] at hn
+    have hsl : slack = [] := by
+      have : tl.length = body.length + slack.length := by rw [hs]; simp
+      apply List.eq_nil_of_length_eq_zero; omega
+    subst hsl
+    simp only [List.append_nil] at hs
+    subst hs
+    refine ⟨hw, by simp only [List.length_cons]; omega, ?_⟩
+    rw [hm]
+    unfold encRaw
+    rw [natBE4_encode_decode]
+    rfl
+  · cases h
+
+theorem rawWF_pathLen {m : PathMeta.Hdr} {body : Bytes} (h : RawWF m body) :
+    (match PathMeta.baseDecode m with | some b => 4 + bodyLen b | none => 4) = 4 + body.length := by
+  obtain ⟨_, b, hb, hl⟩ := rawWF_elim h
+  rw [hb]; simp [hl]
+
+theorem decPath_ok {pt : Nat} {pb : Bytes} {p : PathV} (h : decPath pt pb = .ok (p, pb.length)) :
+    PathWF p ∧ p.type = pt ∧ pathLen p = pb.length ∧
+      encPath p = some (clearBits pb (pathMask p)) ∧ ∀ m ∈ pathMask p, m.1 < pb.length := by
+  unfold decPath at h
+  split at h
+  · rename_i hpt
+    split at h
+    · cases h
+    · rename_i hl
+      simp only [Except.ok.injEq, Prod.mk.injEq] at h
+      obtain ⟨hp, _⟩ := h
+      subst hp
+      have : pb = [] := List.eq_nil_of_length_eq_zero (by omega)
+      subst this
+      exact ⟨trivial, hpt.symm, rfl, rfl, by simp [pathMask]⟩
+  · split at h
+    · rename_i hpt
+      split at h
+      · cases h
+      · rename_i m body n hr
+        simp only [Except.ok.injEq, Prod.mk.injEq] at h
+        obtain ⟨hp, hn⟩ := h
+        subst hp
+        subst hn
+        obtain ⟨hw, hl, he⟩ := decRaw_ok_exact hr
+        refine ⟨hw, hpt.symm, ?_, ?_, ?_⟩
+        · show (match PathMeta.baseDecode m with | some b => 4 + bodyLen b | none => 4) = _
+          rw [rawWF_pathLen hw]; exact hl
+        · show some (encRaw m body) = _
+          rw [he]; rfl
+        · simp [pathMask]; omega
+    · split at h
+      · rename_i hpt
+        split at h
+        · cases h
+        · rename_i p' hr
+          simp only [Except.ok.injEq, Prod.mk.injEq] at h
+          obtain ⟨hp, hlen⟩ := h
+          subst hp
+          obtain ⟨i, h1, h2, ib, h1b, h2b, slack, rfl, hdat, l1, l2, l3, hi, hh1, hh2⟩ :=
+            decOneHop_ok hr
+          have hsl : slack = [] := by
+            have : pb.length = 8 + 12 + 12 + slack.length := by rw [hdat]; simp [l1, l2, l3]; omega
+            apply List.eq_nil_of_length_eq_zero; omega
+          subst hsl
+          obtain ⟨a0,a1,a2,a3,a4,a5,a6,a7,rfl⟩ := length8 l1
+          obtain ⟨c0,c1,c2,c3,c4,c5,c6,c7,c8,c9,c10,c11,rfl⟩ := length12 l2
+          obtain ⟨d0,d1,d2,d3,d4,d5,d6,d7,d8,d9,d10,d11,rfl⟩ := length12 l3
+          obtain ⟨e1, w1⟩ := encInfo_decInfo _ _ _ _ _ _ _ _ _ hi
+          obtain ⟨e2, w2⟩ := encHop_decHop _ _ _ _ _ _ _ _ _ _ _ _ _ hh1
+          obtain ⟨e3, w3⟩ := encHop_decHop _ _ _ _ _ _ _ _ _ _ _ _ _ hh2
+          subst hdat
+          refine ⟨⟨w1, w2, w3⟩, hpt.symm, by simp [pathLen], ?_, by simp [pathMask]⟩
+          show some (encInfo i ++ encHop h1 ++ encHop h2) = _
+          rw [e1, e2, e3]
+          simp [clearBits, clr, pathMask, keepLow_zero, keepLow_two]
+      · split at h
+        · rename_i hpt
+          unfold decEpic at h
+          split at h
+          · rename_i t0 t1 t2 t3 c0 c1 c2 c3 p0 p1 p2 p3 l0 l1 l2 l3 rest
+            split at h
+            · cases h
+            · rename_i m body n hr
+              simp only [Except.ok.injEq, Prod.mk.injEq, List.length_cons] at h
+              obtain ⟨hp, hn⟩ := h
+              have hn' : n = rest.length := by omega
+              subst hn'
+              subst hp
+              obtain ⟨hw, hl, he⟩ := decRaw_ok_exact hr
+              refine ⟨⟨beNat4_lt _ _ _ _, beNat4_lt _ _ _ _, rfl, rfl, hw⟩, hpt.symm, ?_, ?_, ?_⟩
+              · show (match PathMeta.baseDecode m with | some b => 20 + bodyLen b | none => 20) = _
+                have := rawWF_pathLen hw
+                obtain ⟨_, b, hb, hlb⟩ := rawWF_elim hw
+                rw [hb] at this ⊢
+                simp only [List.length_cons] 
+                simp only at this
+                omega
+              · simp only [encPath]
+                rw [if_neg (by simp), natBE_beNat4, natBE_beNat4, he]
+                rfl
+              · simp [pathMask]; omega
+          · cases h
+        · cases h
 
 end Scion.Wire
